@@ -344,12 +344,10 @@ Proof.
   pose proof (split_seg_segs_slash_free t [] eq_refl) as Hsf. rewrite E in Hsf.
   (* what net/url hands to the handler *)
   unfold url_view in Hv. rewrite Ew in Hv.
-  assert (Hv' : exists P, unescape ("/" :: t) = Some P /\ urlpath = P /\
+  assert (Hv' : exists P, urlpath = P /\
                           rawpath = if bytes_eqb (escape P) ("/" :: t) then [] else "/" :: t).
-  { destruct t as [|a t']; [|destruct (unescape ("/" :: a :: t')) as [P|]; [|discriminate]].
-    - simpl in Hv. inversion Hv. exists ["/"]. auto.
-    - inversion Hv. exists P. auto. }
-  clear Hv. destruct Hv' as [P [_ [-> ->]]].
+  { simpl in Hv. destruct (unescape t) as [u|]; [|discriminate]. inversion Hv. eexists. split; reflexivity. }
+  clear Hv. destruct Hv' as [P [-> ->]].
   unfold redirect_handler.
   destruct Hl as [Hl|[-> [bb [b ->]]]].
   - (* no trailing slash: the reference is  <l>/  *)
@@ -412,7 +410,116 @@ Proof.
       assert (bP = b) by (apply escape_unreserved; [symmetry; exact Hbe|exact Hu]). subst bP.
       destruct (rooted_join_decomp bbP b) as [zP EzP].
       apply (Hgoal _ zP). rewrite <- EzP.
-      rewrite <- (join_seg_app_last (bbP ++ [b]) []) by (destruct bbP; simpl; congruence).
-      rewrite <- EP, join_split. reflexivity.
-    + simpl nonempty. cbv iota. apply (Hgoal _ z). rewrite <- Ew'. exact Ew.
+      rewrite <- (join_split P'), EP.
+      rewrite (join_seg_app_last (bbP ++ [b]) []) by (destruct bbP; simpl; congruence). reflexivity.
+    + simpl nonempty. cbv iota. apply (Hgoal _ z). rewrite <- Ew'. symmetry. exact Ew.
 Qed.
+
+(* ------------------------ canonical decoded path => canonical wire path *)
+
+Lemma escape_dot x : escape x = ["."] -> x = ["."].
+Proof. intros H. apply escape_unreserved; [exact H|reflexivity]. Qed.
+
+Lemma escape_dotdot x : escape x = ["."; "."] -> x = ["."; "."].
+Proof. intros H. apply escape_unreserved; [exact H|reflexivity]. Qed.
+
+Lemma seg_dot_iff s : seg_dot s = true <-> s = ["."].
+Proof.
+  split; [|intros ->; reflexivity]. destruct s as [|c [|d s]]; try discriminate.
+  - destruct c as [[] [] [] [] [] [] [] []]; try discriminate. reflexivity.
+  - destruct c as [[] [] [] [] [] [] [] []]; discriminate.
+Qed.
+
+Lemma seg_dotdot_iff s : seg_dotdot s = true <-> s = ["."; "."].
+Proof.
+  split; [|intros ->; reflexivity]. destruct s as [|c [|d [|e s]]]; try discriminate.
+  - destruct c as [[] [] [] [] [] [] [] []]; discriminate.
+  - destruct c as [[] [] [] [] [] [] [] []]; try discriminate;
+      destruct d as [[] [] [] [] [] [] [] []]; try discriminate. reflexivity.
+  - destruct c as [[] [] [] [] [] [] [] []]; try discriminate;
+      destruct d as [[] [] [] [] [] [] [] []]; discriminate.
+Qed.
+
+Lemma real_seg_escape x : real_seg (escape x) = real_seg x.
+Proof.
+  unfold real_seg.
+  assert (H1 : seg_dot (escape x) = seg_dot x).
+  { destruct (seg_dot x) eqn:E.
+    - apply seg_dot_iff in E. subst x. reflexivity.
+    - destruct (seg_dot (escape x)) eqn:E'; [|reflexivity]. apply seg_dot_iff in E'. apply escape_dot in E'.
+      subst x. discriminate. }
+  assert (H2 : seg_dotdot (escape x) = seg_dotdot x).
+  { destruct (seg_dotdot x) eqn:E.
+    - apply seg_dotdot_iff in E. subst x. reflexivity.
+    - destruct (seg_dotdot (escape x)) eqn:E'; [|reflexivity]. apply seg_dotdot_iff in E'. apply escape_dotdot in E'.
+      subst x. discriminate. }
+  assert (H3 : nonempty_b (escape x) = nonempty_b x).
+  { destruct x as [|c x]; [reflexivity|]. change (escape (c :: x)) with (escape_byte c ++ escape x).
+    destruct (escape_byte_head c) as [r [[E _]|[E _]]]; rewrite E; reflexivity. }
+  rewrite H1, H2, H3. reflexivity.
+Qed.
+
+Definition canon_body (t : bytes) : bool :=
+  forallb real_seg (removelast (split_seg t [])) &&
+  (real_seg (last (split_seg t []) []) ||
+   negb (nonempty_b (last (split_seg t []) [])) && nonempty_b (removelast (split_seg t []))).
+
+Lemma canonical_path_cons t : t <> [] -> canonical_path ("/" :: t) = canon_body t.
+Proof. destruct t; [congruence|reflexivity]. Qed.
+
+Lemma canonical_escape P : canonical_path P = true -> canonical_path (escape P) = true.
+Proof.
+  destruct P as [|c t]; [discriminate|]. intros H. assert (H' := H). simpl in H'. apply andb_true_iff in H'.
+  destruct H' as [Hc _]. apply Ascii.eqb_eq in Hc. subst c. change (escape ("/" :: t)) with ("/" :: escape t).
+  destruct (list_eq_dec ascii_dec t []) as [->|Hne]; [reflexivity|].
+  assert (Hne' : escape t <> []) by (intros E; apply escape_nil in E; congruence).
+  rewrite canonical_path_cons in * by assumption. unfold canon_body in *.
+  rewrite split_seg_escape.
+  pose proof (split_seg_nonnil t []) as Hnn. destruct (exists_last Hnn) as [body [l E]]. rewrite E in *.
+  rewrite map_app. simpl map. rewrite !removelast_last, !last_last in *.
+  apply andb_true_iff in H. destruct H as [Hb Hl]. rewrite forallb_forall in Hb. apply andb_true_iff. split.
+  - apply forallb_forall. intros x Hx. apply in_map_iff in Hx. destruct Hx as [y [<- Hy]].
+    rewrite real_seg_escape. apply Hb. exact Hy.
+  - rewrite real_seg_escape.
+    replace (nonempty_b (escape l)) with (nonempty_b l).
+    + replace (nonempty_b (map escape body)) with (nonempty_b body) by (destruct body; reflexivity). exact Hl.
+    + destruct l as [|c l]; [reflexivity|]. change (escape (c :: l)) with (escape_byte c ++ escape l).
+      destruct (escape_byte_head c) as [r [[Eb _]|[Eb _]]]; rewrite Eb; reflexivity.
+Qed.
+
+Lemma url_view_not_star w : w <> ["*"] ->
+  url_view w = match unescape w with
+               | Some p => Some (p, if bytes_eqb (escape p) w then [] else w)
+               | None => None
+               end.
+Proof.
+  intros Hne. destruct w as [|c [|d w']].
+  - reflexivity.
+  - destruct c as [[] [] [] [] [] [] [] []]; try reflexivity. congruence.
+  - destruct c as [[] [] [] [] [] [] [] []]; reflexivity.
+Qed.
+
+Lemma url_view_cases w u r : url_view w = Some (u, r) ->
+  (w = ["*"] /\ u = ["*"] /\ r = []) \/
+  (w <> ["*"] /\ unescape w = Some u /\ r = if bytes_eqb (escape u) w then [] else w).
+Proof.
+  intros Hv. destruct (list_eq_dec ascii_dec w ["*"]) as [->|Hne].
+  - left. vm_compute in Hv. injection Hv as <- <-. auto.
+  - right. rewrite (url_view_not_star w Hne) in Hv. destruct (unescape w) as [p|]; [|discriminate].
+    injection Hv as <- <-. auto.
+Qed.
+
+(* the wire path is canonical whenever the path ServeHTTP matches on is *)
+Lemma canonical_wire w urlpath rawpath :
+  url_view w = Some (urlpath, rawpath) ->
+  canonical_path (if nonempty rawpath then rawpath else urlpath) = true -> canonical_path w = true.
+Proof.
+  intros Hv Hc. destruct (url_view_cases w urlpath rawpath Hv) as [[-> [-> ->]]|[_ [Hu ->]]].
+  - discriminate Hc.
+  - destruct (bytes_eqb (escape urlpath) w) eqn:E.
+    + apply bytes_eqb_eq in E. subst w. apply canonical_escape. exact Hc.
+    + destruct w as [|c w']; [|exact Hc]. simpl in Hu. injection Hu as <-. discriminate Hc.
+Qed.
+
+Lemma url_view_root urlpath rawpath : url_view ["/"] = Some (urlpath, rawpath) -> urlpath = ["/"].
+Proof. intros H. vm_compute in H. inversion H. reflexivity. Qed.
